@@ -249,7 +249,7 @@ type runner struct {
 	snaps   map[string][3]string
 	led     *ledger // Go-side specification state (oracle.go); answers the `spec ...` ops
 	jled    *ledger // the ledger the oracles judge against: = led, except that it follows the store after a reported lease hand-over (F8)
-	cons    bool // every event so far satisfied ledger.consistent (= Lean `Ledger.consistent`); decides the `spec` ops
+	cons    bool    // every event so far satisfied ledger.consistent (= Lean `Ledger.consistent`); decides the `spec` ops
 	// strict: every event so far also satisfied ledger.extra (= the rest of Lean's `TxStore.Consistent`): the history
 	// lies inside the quantifier of C01/C02/C12/C13 and the property oracles apply
 	strict bool
